@@ -122,6 +122,31 @@ fn main() {
             cleanup_scratch();
             0
         }
+        Some("c08script") => {
+            // debugging aid: cfdp-verif c08script <nsegs> <withheld-mask> <order> <immediate 0|1> <delay_ms> <pause_before|-> <seed>
+            init_scratch();
+            let a: Vec<u64> = args[2..].iter().map(|x| x.parse().unwrap_or(u64::MAX)).collect();
+            let script = cfdp_verif::props::c08::Script {
+                nsegs: a[0] as u32,
+                seg: 16,
+                large: false,
+                nak: cfdp_verif::sim::NakSpec { immediate: a[3] == 1, delay_ms: a[4] },
+                withheld: a[1] as u32,
+                order: a[2] as u8,
+                answer: 0,
+                prompt_before_eof: false,
+                last_short: false,
+                seed: a[6],
+                crc: false,
+                pause_before: if a[5] == u64::MAX { None } else { Some(a[5] as u32) },
+            };
+            let case = cfdp_verif::props::c08::build(&script);
+            let tr = cfdp_verif::sim::run_scenario(&case.sc);
+            println!("{}", tr.render(300));
+            println!("verdict: {:?}", cfdp_verif::props::c08::check_naks(&case, &tr).map_err(|f| (f.key, f.msg.lines().next().unwrap_or("").to_string())));
+            cleanup_scratch();
+            0
+        }
         Some("trace") => {
             // print the trace of the scenario stored in a replay file (any E2/E3 part)
             init_scratch();
